@@ -464,6 +464,35 @@ class TV:
                     d = padd(p, pk, M, -1)
                     if not d or list(d.keys()) == [()]:
                         return padd(patom(("c", k)), d, M)
+                # p = an integer combination of current values of unwritten cells + something renamable ?
+                # (eliminate, a few times, a monomial with an unstable atom against a cell whose current value
+                # has that monomial with coefficient +-1)
+                rest, combo = dict(p), {}
+                for _ in range(4):
+                    ren = {a: keep_atom(a) for a in atoms(rest)}
+                    if all(v is not None for v in ren.values()):
+                        q = psubst(rest, lambda a: ren[a], M)
+                        for k, x in combo.items():
+                            q = padd(q, pmul(pconst(x, M), patom(("c", k)), M), M)
+                        return q
+                    step = None
+                    for mono, coef in rest.items():
+                        if not any(ren.get(a) is None for a in mono):
+                            continue
+                        for k, pk in st.Cb.items():
+                            if k in wc or k in new.D or k == skip or k in combo:
+                                continue
+                            c = pk.get(mono)
+                            if c in (1, M - 1):
+                                step = (k, (coef * c) % M, pk)
+                                break
+                        if step:
+                            break
+                    if not step:
+                        break
+                    k, x, pk = step
+                    combo[k] = x
+                    rest = padd(rest, pmul(pconst(x, M), pk, M), M, -1)
             return None
         if not allc:
             for k, p in st.Cb.items():
